@@ -157,34 +157,41 @@ def playback(prop, ob, crate_dir, target_dir, lib_rel="src/lib.rs", timeout=900,
     pb["failing_input"] = {"harness": harness,
                            "kani_any_values_in_order": [v[0] for v in vals],
                            "bytes": [[int(x) for x in v[1].split(",") if x.strip()] for v in vals]}
+    pb["native_replay"] = run_native(test_src, harness, crate_dir, target_dir, lib_rel, scratch_copy, env, tag=ob.name)
+    pb["replay_mode"] = "incrate" if scratch_copy else "path"
+    pb["playback_test"] = test_src
+    return write_replay(prop, ob, pb)
+
+
+def run_native(test_src, harness, crate_dir, target_dir, lib_rel="src/lib.rs", scratch_copy=None, env=None, tag="replay"):
+    """execute a Kani concrete-playback test natively (real rustc codegen, real
+    code) in a scratch copy of the harness crate; returns a result dict"""
     tname = re.search(r"fn (kani_concrete_playback_\w+)", test_src).group(1)
     modpath = "crate::" + harness.rsplit("::", 1)[0]
-    # scratch copy of the harness crate (never edit /verif or /repo sources)
-    safe = re.sub(r"[^A-Za-z0-9_]+", "_", ob.name)[:60]
+    safe = re.sub(r"[^A-Za-z0-9_]+", "_", tag)[:60]
     sc = os.path.join(WORK, "pb_" + safe)
     shutil.rmtree(sc, ignore_errors=True)
     if scratch_copy:
-        scratch_copy(sc)
-        lib = os.path.join(sc, lib_rel)
+        # in-crate mode: the builder returns (file to append the test to, `use` path, cwd)
+        target_file, use_path, cwd = scratch_copy(sc, harness)
     else:
         shutil.copytree(crate_dir, sc, ignore=shutil.ignore_patterns("target", "Cargo.lock"))
-        lib = os.path.join(sc, lib_rel)
-    with open(lib, "a") as f:
-        f.write("\n#[cfg(test)]\nmod verif_playback {\n    use %s::*;\n%s\n}\n" % (modpath, test_src))
-    cwd = os.path.dirname(os.path.dirname(lib)) if lib_rel.startswith("src/") else os.path.dirname(lib)
-    # harness module paths of in-crate harnesses start at the crate root too
+        target_file = os.path.join(sc, lib_rel)
+        use_path = modpath
+        cwd = os.path.dirname(os.path.dirname(target_file))
+    with open(target_file, "a") as f:
+        f.write("\n#[cfg(test)]\nmod verif_playback {\n    use %s::*;\n%s\n}\n" % (use_path, test_src))
     rc2, out2, wall2, to2 = run(["cargo", "kani", "playback", "-Z", "concrete-playback", "-Z", "function-contracts", "--", tname],
-                                cwd=cwd, timeout=600, env=dict(env or {}, CARGO_TARGET_DIR=target_dir + "_pb"))
+                                cwd=cwd, timeout=900, env=dict(env or {}, CARGO_TARGET_DIR=target_dir + "_pb"))
     native_failed = "test result: FAILED" in out2
     native_ok = "test result: ok" in out2
     pm = re.search(r"panicked at ([^\n]*)\n([^\n]*)", out2)
-    pb["native_replay"] = {
+    shutil.rmtree(sc, ignore_errors=True)
+    return {
         "cmd": "cargo kani playback -Z concrete-playback -- " + tname,
         "result": "REPLAY confirmed: the real code fails natively on this input" if native_failed else
-                  ("REPLAY not-reproduced natively (test passed; the failed check is not a native panic)" if native_ok else "REPLAY could not run"),
+                  ("REPLAY not-reproduced natively (test passed)" if native_ok else "REPLAY could not run"),
+        "confirmed": native_failed,
         "panic": (pm.group(1) + " " + pm.group(2)) if pm else None,
         "output_tail": out2[-1500:],
     }
-    pb["playback_test"] = test_src
-    shutil.rmtree(sc, ignore_errors=True)
-    return write_replay(prop, ob, pb)
